@@ -35,6 +35,7 @@ class DecoderRun2:
         self.own_unchecked = own_unchecked
         R = roles.roles(fx)
         self.point_from_x = {R[g].get('get_point_from_x') for g in ('G1', 'G2')} - {None}
+        self.r_torsion = {R[g].get('r_torsion') for g in ('G1', 'G2')} - {None}
 
     # ------------------------------------------------------------------ byte arithmetic
     def binop_hook(self, op, a, b):
@@ -104,6 +105,9 @@ class DecoderRun2:
             return True
         if name == 'is_on_curve':
             fr.storev(dest, ('bool', ('is_on_curve', freeze(fr.deref_operand(args[0])))))
+            return True
+        if (c.get('res') or d) in self.r_torsion and len(args) == 1:
+            fr.storev(dest, ('bool', ('r_torsion', freeze(fr.deref_operand(args[0])))))
             return True
         if name == 'in_subgroup':
             fr.storev(dest, ('bool', ('in_subgroup', freeze(fr.deref_operand(args[0])))))
@@ -182,7 +186,7 @@ class DecoderRun2:
         selfv = Agg([buf])
         import inline as INL
         I = exp.Interp(self.fx, 'none', extra_transfer=self.transfer, max_paths=64,
-                       inline=lambda q: INL.is_private_helper(self.fx, q) and q not in self.point_from_x)
+                       inline=lambda q: INL.is_private_helper(self.fx, q) and q not in self.point_from_x and q not in self.r_torsion)
         I.binop_hook = self.binop_hook
         I.propagate_hooks = True
         I.fork_inlined = True
